@@ -623,6 +623,11 @@ from ..selftest import Seed, unparse_seed  # noqa: E402
 _DT = "src/odfdo/datatype.py"
 _CO = "src/odfdo/utils/color.py"
 SEEDS = [
+    Seed("rgb2hex remembers its answers in a module table", "fault", "src/odfdo/utils/color.py",
+         "    if isinstance(color, tuple):\n        return rgb2hex(color)", "    if isinstance(color, tuple):\n        if sum(color) not in _SEEN:\n            _SEEN[sum(color)] = rgb2hex(color)\n        return _SEEN[sum(color)]", "R18g",
+         edits=[("src/odfdo/utils/color.py", "from ..const import CSS3_COLORMAP\n", "from ..const import CSS3_COLORMAP\n\n_SEEN: dict = {}\n")]),
+    Seed("hexa_color keeps a local table", "neutral", "src/odfdo/utils/color.py",
+         "    if isinstance(color, tuple):\n        return rgb2hex(color)", "    if isinstance(color, tuple):\n        seen = {}\n        seen[color] = rgb2hex(color)\n        return seen[color]"),
     Seed("rgb2hex rescales tuples whose channels are all at most 1", "fault", _CO,
          "        code = color\n", "        code = tuple(round(c * 255) for c in color) if all(0 <= c <= 1 for c in color) else color\n", "R18f"),
     Seed("the grey spellings are dropped from the colour table", "fault", "src/odfdo/const.py", '    "grey": (128, 128, 128),\n', '', "R18c"),
